@@ -92,6 +92,9 @@ def main(argv):
                 assumed_contracts.append('%s [%s]: %s' % (q, bname, con.notes or 'assumed'))
         for ob in eng.obls:
             ob.bundle = bname
+            ob.base_name = ob.name
+            if len(cfg['bundles']) > 1:
+                ob.name = '%s [%s]' % (ob.name, bname)
             ob.logic = getattr(D, 'smt_logic', 'ALL')
             ob.portfolio = getattr(D, 'portfolio', False)
         all_obls += eng.obls
@@ -158,7 +161,7 @@ def decide(pid, tier, seed, t0, cfg, claimed, deps, functions, unsupported, assu
     # known findings
     kf_used = {}
     for ob in refuted:
-        k = next((k for k in known if k['obligation'] == ob.name), None)
+        k = next((k for k in known if k['obligation'] in (ob.name, getattr(ob, 'base_name', ob.name))), None)
         if k is None:
             violations.append(ob)
             continue
